@@ -253,7 +253,7 @@ pub fn all_lenses() -> Vec<Lens> {
             // or ends in a bare '%'. Exactly one decoding step may be applied, by every type.
             name: "A12-double-encoding",
             prefixes: vec!["pkg:t/", "pkg:npm/", "pkg:maven/", "pkg:t/n@", "pkg:t/n?k=", "pkg:t/n#", "pkg:golang/g/n#", "pkg:pypi/"],
-            alphabet: vec!["%2540", "%252F", "%252e", "%2541", "%25", "/", "a", ".", "@", "%40", "%2F"],
+            alphabet: vec!["%2540", "%252F", "%252e", "%2541", "%25", "/", "a", ".", "@", "%40", "%2F", "%", "%4"],
             suffixes: vec![""],
             n_quick: 5,
             n_thorough: 7,
@@ -295,6 +295,16 @@ pub fn all_lenses() -> Vec<Lens> {
             alphabet: vec![".git", "x.git", "v2", "%2Egit", "node_modules", "-SNAPSHOT", "/", "a", ".", "@latest"],
             suffixes: vec![""],
             n_quick: 4,
+            n_thorough: 6,
+        },
+        Lens {
+            // four and more qualifiers whose keys share prefixes and differ at '_', '-', '.', a digit or a
+            // letter (each token is a whole pair with its separator, so five tokens are five qualifiers)
+            name: "A17-key-order",
+            prefixes: vec!["pkg:t/n?"],
+            alphabet: vec!["a=1&", "a_=2&", "ab=3&", "a_b=4&", "abc=5&", "b=6&", "a-=7&", "a.=8&", "a0=9&", "A_=x&", "AB=y&", "ab_=&"],
+            suffixes: vec!["z=0"],
+            n_quick: 5,
             n_thorough: 6,
         },
         Lens {
